@@ -17,17 +17,15 @@ open Neumann.KV
 
 /-- FULL STRENGTH, every number of threads, every program, every schedule, keys any byte strings
     (their class is what `classify_key` computes): when every operation is a single atomic step
-    (put/get/delete/exists on plain, graph, table and cache keys, scans, durable forms of cache
-    keys) and every scan prefix has an end key (`Op.scanBounded`: "", or a string whose last byte is
-    neither 0x7F nor 0xBF, see `ScanProps.bounded_prefix_iff`; on the others `MetadataSlab::scan`
-    over-returns even sequentially, `ScanProps.scan_prefix_without_successor_witness`), then the
+    (put/get/delete/exists on plain, graph, table and cache keys, scans with ANY prefix that is a
+    string - `Op.scanStr`, well-formedness of the input -, durable forms of cache keys), then the
     history IN STEP ORDER is a legal sequential execution
     with every result exactly the specification's (`SeqStrict`, hence `SeqValid`); the step order
     respects real time (each operation is invoked and returns at its one step; the history is
     strictly increasing in it); the final store is the specification applied in step order
     (`Abs`); so the history is linearizable. -/
 theorem single_step_ops_linearizable (walOn : Bool) (progs : List ThreadProgram) (sched : List Nat)
-    (h : ∀ p ∈ progs, ∀ op ∈ p, op.singleStep ∧ op.scanBounded = true) :
+    (h : ∀ p ∈ progs, ∀ op ∈ p, op.singleStep ∧ op.scanStr = true) :
     let r := runSched walOn progs sched
     SeqStrict [] r.hist ∧ SeqValid [] r.hist ∧
     (∀ x ∈ r.hist, x.inv = x.ret) ∧ r.hist.Pairwise (fun a b => a.ret < b.inv) ∧
@@ -49,22 +47,22 @@ theorem single_step_ops_linearizable (walOn : Bool) (progs : List ThreadProgram)
 example :
     (∀ p ∈ ([[.put (mkKey .plain 1) ⟨1, .none⟩, .get (mkKey .cache 1)], [.get (mkKey .plain 1), .delete (mkKey .plain 1)],
         [.put (mkKey .cache 1) ⟨2, .good 2⟩, .scan []], [.exists_ (mkKey .plain 1), .put (mkKey .graph 2) ⟨3, .none⟩]]
-        : List ThreadProgram), ∀ op ∈ p, op.singleStep ∧ op.scanBounded = true) ∧
+        : List ThreadProgram), ∀ op ∈ p, op.singleStep ∧ op.scanStr = true) ∧
     (runSched false [[.put (mkKey .plain 1) ⟨1, .none⟩, .get (mkKey .cache 1)], [.get (mkKey .plain 1), .delete (mkKey .plain 1)],
         [.put (mkKey .cache 1) ⟨2, .good 2⟩, .scan []], [.exists_ (mkKey .plain 1), .put (mkKey .graph 2) ⟨3, .none⟩]]
         [0, 1, 2, 3, 2, 0, 3, 1]).hist.map (·.res)
       = [.ok, .found ⟨1, .none⟩, .ok, .bool true, .keys [(mkKey .plain 1), (mkKey .cache 1)],
          .found ⟨2, .good 2⟩, .ok, .ok] := by decide
 
-/-- a scan with ANY prefix that has an end key (the class prefixes `user:` `node:` `edge:` `table:`
-    `_cache:`, prefixes that cut across classes such as `e` or `_`, "", while no `emb:` key is in
-    use) is one atomic step: in any run of single-step operations it returns exactly the keys that
+/-- a scan with ANY prefix (the class prefixes `user:` `node:` `edge:` `table:` `_cache:`, prefixes
+    that cut across classes such as `e` or `_`, prefixes without an end key such as `user:п`, "",
+    while no `emb:` key is in use) is one atomic step: in any run of single-step operations it returns exactly the keys that
     start with the prefix (byte-wise) and are present in the specification state at its step.
     (`MetadataSlab::scan` with a non-empty prefix reads one shard under one read lock; the
     entity-index and cache-ring reads that follow in `SlabRouter::scan` have no yield hook between
     them — at the granularity of the hooks the whole scan is one step.) -/
-theorem scan_atomic_and_exact_for_bounded_prefix (walOn : Bool) (progs : List ThreadProgram)
-    (sched : List Nat) (h : ∀ p ∈ progs, ∀ op ∈ p, op.singleStep ∧ op.scanBounded = true)
+theorem scan_atomic_and_exact (walOn : Bool) (progs : List ThreadProgram)
+    (sched : List Nat) (h : ∀ p ∈ progs, ∀ op ∈ p, op.singleStep ∧ op.scanStr = true)
     (pre : List OpRec) (x : OpRec) (post : List OpRec) (c : List Nat) (ks : List Key)
     (hx : (runSched walOn progs sched).hist = pre ++ x :: post)
     (hop : x.op = .scan c) (hres : x.res = .keys ks) :
@@ -100,7 +98,7 @@ theorem scan_atomic_and_exact_for_bounded_prefix (walOn : Bool) (progs : List Th
 example :
     (∀ p ∈ ([[.put ⟨[101, 118, 101]⟩ ⟨1, .none⟩, .delete ⟨[101, 118, 101]⟩],
         [.put ⟨pfxEdge ++ [49]⟩ ⟨2, .none⟩, .put (mkKey .plain 1) ⟨3, .none⟩],
-        [.scan [101], .scan [101]]] : List ThreadProgram), ∀ op ∈ p, op.singleStep ∧ op.scanBounded = true) ∧
+        [.scan [101], .scan [101]]] : List ThreadProgram), ∀ op ∈ p, op.singleStep ∧ op.scanStr = true) ∧
     (runSched false [[.put ⟨[101, 118, 101]⟩ ⟨1, .none⟩, .delete ⟨[101, 118, 101]⟩],
         [.put ⟨pfxEdge ++ [49]⟩ ⟨2, .none⟩, .put (mkKey .plain 1) ⟨3, .none⟩],
         [.scan [101], .scan [101]]] [0, 1, 1, 2, 0, 2]).hist.map (·.res)
@@ -124,7 +122,7 @@ theorem linearizable_read_returns_written_value (recs : List OpRec) (hl : Linear
     every interleaving of operations of every key class is linearizable. -/
 def EmbLinearizable : Prop :=
   ∀ (progs : List ThreadProgram) (sched : List Nat),
-    (∀ p ∈ progs, ∀ op ∈ p, op.nonDurableBounded = true) →
+    (∀ p ∈ progs, ∀ op ∈ p, op.nonDurableStr = true) →
     Linearizable (runSched false progs sched).hist
 
 /-- the interleaving `embMixtureSched` of two `put emb:1` and one `get emb:1`
@@ -154,7 +152,7 @@ theorem emb_mixture_witness :
     ends (`Linearizable` speaks of completed operations, so the run must have finished: a scan
     may have seen the key of a `put` that has taken only its index step).
     What is proved, for EVERY number of threads, ALL programs of put / get / delete / exists / scan
-    (`Op.nonDurableBounded`: scan prefixes with an end key) on keys of every class - any byte
+    (scan prefixes any strings, `Op.nonDurableStr`) on keys of every class - any byte
     strings - and EVERY schedule in which no operation on an `emb:` key is invoked
     while another operation on the same key is in progress (`NoEmbOverlap`, computed along the
     schedule; operations on different keys, scans and everything on the other classes overlap
@@ -167,7 +165,7 @@ theorem emb_mixture_witness :
     vector of the metadata value; a key with an operation inside is in the partial state that
     operation's yield point implies; entity ids are never shared. -/
 theorem emb_linearizable_partial (progs : List ThreadProgram) (sched : List Nat)
-    (h : ∀ p ∈ progs, ∀ op ∈ p, op.nonDurableBounded = true)
+    (h : ∀ p ∈ progs, ∀ op ∈ p, op.nonDurableStr = true)
     (hx : NoEmbOverlap false progs sched = true)
     (hq : quiescent (runSched false progs sched) = true) :
     Linearizable (runSched false progs sched).hist ∧
@@ -187,7 +185,7 @@ example :
     (∀ p ∈ ([[.put (mkKey .emb 1) ⟨1, .good 1⟩, .get (mkKey .emb 2), .delete (mkKey .emb 1)],
         [.scan pfxEmb, .put (mkKey .emb 2) ⟨2, .bad 2⟩, .get (mkKey .emb 1)],
         [.put (mkKey .plain 1) ⟨3, .none⟩, .exists_ (mkKey .emb 2), .get (mkKey .plain 1)]] : List ThreadProgram),
-        ∀ op ∈ p, op.nonDurableBounded = true) ∧
+        ∀ op ∈ p, op.nonDurableStr = true) ∧
     NoEmbOverlap false [[.put (mkKey .emb 1) ⟨1, .good 1⟩, .get (mkKey .emb 2), .delete (mkKey .emb 1)],
         [.scan pfxEmb, .put (mkKey .emb 2) ⟨2, .bad 2⟩, .get (mkKey .emb 1)],
         [.put (mkKey .plain 1) ⟨3, .none⟩, .exists_ (mkKey .emb 2), .get (mkKey .plain 1)]]
@@ -209,7 +207,7 @@ example :
     last step) before the other was invoked (its first step).  (The schedule form also covers the
     operations still in progress when the schedule ends, which the history does not show.) -/
 theorem no_emb_overlap_disjoint_in_history (progs : List ThreadProgram) (sched : List Nat)
-    (h : ∀ p ∈ progs, ∀ op ∈ p, op.nonDurableBounded = true)
+    (h : ∀ p ∈ progs, ∀ op ∈ p, op.nonDurableStr = true)
     (hx : NoEmbOverlap false progs sched = true) :
     ∀ a ∈ (runSched false progs sched).hist, ∀ b ∈ (runSched false progs sched).hist, a ≠ b →
       ∀ k, a.op.key? = some k → b.op.key? = some k → k.cls = .emb → a.ret < b.inv ∨ b.ret < a.inv := by
@@ -228,7 +226,7 @@ example : NoEmbOverlap false embMixtureProgs embMixtureSched = false := by decid
 /-- FULL STRENGTH, with or without the log, every number of threads, every program, every schedule:
     operations of every kind - put / get / delete / exists / scan AND `put_durable` /
     `delete_durable` - on keys of every class but `emb:` (any byte strings, any values), scan
-    prefixes with an end key.  A durable write of a plain / graph / table key is two atomic steps
+    prefixes any strings.  A durable write of a plain / graph / table key is two atomic steps
     (append to the log, apply in memory; the mutex is held in between) and other threads' reads
     and non-durable writes of the same key run between them.  The history, IN THE ORDER OF THE
     LAST STEPS, is a legal sequential execution with every result exactly the specification's; that
@@ -237,7 +235,7 @@ example : NoEmbOverlap false embMixtureProgs embMixtureSched = false := by decid
     so the history is linearizable - the linearization point of a durable write is its in-memory
     apply. -/
 theorem durable_ops_linearizable (walOn : Bool) (progs : List ThreadProgram) (sched : List Nat)
-    (h : ∀ p ∈ progs, ∀ op ∈ p, op.noEmb = true ∧ op.scanBounded = true) :
+    (h : ∀ p ∈ progs, ∀ op ∈ p, op.noEmb = true ∧ op.scanStr = true) :
     let r := runSched walOn progs sched
     SeqStrict [] r.hist ∧ SeqValid [] r.hist ∧
     (∀ x ∈ r.hist, x.inv ≤ x.ret) ∧ r.hist.Pairwise (fun a b => a.ret < b.ret) ∧
@@ -254,7 +252,7 @@ theorem durable_ops_linearizable (walOn : Bool) (progs : List ThreadProgram) (sc
     granted while thread 0 holds the mutex and does not move -/
 example :
     (∀ p ∈ ([[.putD kP1 ⟨1, .none⟩], [.get kP1, .get kP1, .putD kP1 ⟨3, .none⟩], [.put kP1 ⟨2, .none⟩, .scan pfxUser]]
-        : List ThreadProgram), ∀ op ∈ p, op.noEmb = true ∧ op.scanBounded = true) ∧
+        : List ThreadProgram), ∀ op ∈ p, op.noEmb = true ∧ op.scanStr = true) ∧
     (runSched true [[.putD kP1 ⟨1, .none⟩], [.get kP1, .get kP1, .putD kP1 ⟨3, .none⟩], [.put kP1 ⟨2, .none⟩, .scan pfxUser]]
         [0, 1, 2, 2, 1, 1, 0, 1, 1]).hist.map (fun r => (r.t, r.i, r.res, r.inv, r.ret))
       = [(1, 0, .notFound, 1, 1), (2, 0, .ok, 2, 2), (2, 1, .keys [kP1], 3, 3), (1, 1, .found ⟨2, .none⟩, 4, 4),
